@@ -616,7 +616,7 @@ pub fn history(cfg: &Cfg, rep: &mut Report, h: u64, steps: usize, mode: Mode) {
 pub fn run(cfg: &Cfg, rep: &mut Report) {
     rep.rule = "(a) exhaustive sweep (split over shards) of transfer and transfer_from under all 2^7 combinations of {paused, from frozen, to frozen, amount > free, id(from) fails, id(to) fails, compliance denies} and mint under 2^2, each in 3 variants (partial amount, self-transfer, whole balance) on a fresh token with sufficient balance and allowance; (b) seeded histories of mint/transfer/transfer_from/approve/forced_transfer/burn/recover_balance/freeze/unfreeze/set_address_frozen/pause/unpause with gate toggles in between, amounts around balance, free and frozen. Distinct case = (entry point, 7-bit gate vector, outcome) for (a) and (op, gate vector or freeze class, outcome) for (b).".into();
     gate_sweep(cfg, rep);
-    let nh = cfg.pick(10u64, 150);
+    let nh = cfg.pick(60u64, 400);
     let steps = cfg.pick(160usize, 300);
     for k in 0..nh {
         let h = 10_000 + k;
